@@ -88,6 +88,12 @@ CLAIMED.update({
             "Calls whose callee or caller is silent are outside the exact model (accepted either way, bounded hold asserted); serialised transports get two extra buffered messages; callees are in-process so that a held handler is observable.", "DESIGN.md 4/C07"),
 })
 
+CLAIMED.update({
+    "C08": ("property-based concurrency testing: generated actor scripts (numbered publication bursts, call bursts with progressive results, subscribe/unsubscribe/register/unregister during traffic) run concurrently under the real scheduler with varied GOMAXPROCS and transports; history invariants over the order in which each peer read its messages",
+            "Exploration: each case executed three times; sequence numbers per (publisher, topic, subscription), call order per (caller, callee), progressive-before-final, SUBSCRIBED/REGISTERED before first delivery and nothing after UNSUBSCRIBED/UNREGISTERED. Schedules sampled, not enumerated.",
+            "Loss is not judged (large queues); only interleavings the Go scheduler produces are seen.", "DESIGN.md 4/C08"),
+})
+
 NOT_YET = {}
 
 def main():
